@@ -476,7 +476,9 @@ fn enumerate(depth: usize, max_tx: usize, out: &mut Vec<Vec<Step>>) {
 
 fn random_walk(rng: &mut Rng, len: usize) -> Vec<Step> {
     let long = "T".repeat(99);
-    let mut pool: Vec<String> = vec!["a".into(), "b".into(), "c".into(), "".into(), long, "Zähler 7".into(), "AC".into(), "ACa".into(), "aAC".into(), "A".into()];
+    // tokens that differ only by surrounding / inner white space, by letter case or by a trailing NUL-free suffix are
+    // different tokens
+    let mut pool: Vec<String> = vec!["a".into(), "b".into(), "c".into(), "".into(), long, "Zähler 7".into(), "AC".into(), "ACa".into(), "aAC".into(), "A".into(), "a ".into(), " a".into(), "a  ".into(), "a\t".into(), " ".into(), "b ".into(), "B".into()];
     if let Some(d) = DICT.get() {
         for _ in 0..3 {
             if !d.is_empty() {
@@ -546,7 +548,7 @@ pub fn run(ctx: &Ctx, id: &str) -> i32 {
     };
     let n_walks = ctx.by(4_000usize, 200_000usize);
     report.rule = if id == "C07" {
-        format!("call histories of begin/commit/cancel over tokens {{a,b,c}} (tokens introduced in this order: symmetry), model-guided bounded-exhaustive: every history of exactly {depth} calls with every terminal outcome (reservation: success / abort / missing receipt / abort after a status information that already carried a receipt number; reversal: completed / abort / abort B8 echoing the request's receipt number) branched where the model accepts the call, x transactions_max_num 0..3; then a probe suffix cancel(a), cancel(b), cancel(c); plus {n_walks} random walks to depth 40 with empty / 99-byte / non-ASCII tokens and max 0..4. Additionally: card reads interleaved with the transaction calls (the card's status information carrying an amount, a receipt number equal to an open transaction's, and a maximum pre-authorisation amount around the configured one: no effect on the tokens allowed), every abort code 0..255 for a reservation while another transaction is open, every abort code 0..255 x {{no receipt, own receipt echoed, FFFF, another receipt}} for commit and cancel with one and two open transactions, and a link fault (close/garbage/NACK/foreign/silence/reply-then-close) at every packet of the reservation exchange followed by commit/cancel (the token must map to the receipt of the reservation that completed). Oracle: sequential client model (D.3) for the result class, 'refused => no request and no connection', 'commit/cancel carry the receipt number the terminal issued for that token', and the hook snapshot of the client's map after every call. Non-trivial = history with at least one accepted call; distinct by hash of (history, max).")
+        format!("call histories of begin/commit/cancel over tokens {{a,b,c}} (tokens introduced in this order: symmetry), model-guided bounded-exhaustive: every history of exactly {depth} calls with every terminal outcome (reservation: success / abort / missing receipt / abort after a status information that already carried a receipt number; reversal: completed / abort / abort B8 echoing the request's receipt number) branched where the model accepts the call, x transactions_max_num 0..3; then a probe suffix cancel(a), cancel(b), cancel(c); plus {n_walks} random walks to depth 40 with empty / 99-byte / non-ASCII tokens and max 0..4. Additionally: pairs of tokens that are equal after trimming white space / case folding (different tokens: both stay open), card reads interleaved with the transaction calls (the card's status information carrying an amount, a receipt number equal to an open transaction's, and a maximum pre-authorisation amount around the configured one: no effect on the tokens allowed), every abort code 0..255 for a reservation while another transaction is open, every abort code 0..255 x {{no receipt, own receipt echoed, FFFF, another receipt}} for commit and cancel with one and two open transactions, and a link fault (close/garbage/NACK/foreign/silence/reply-then-close) at every packet of the reservation exchange followed by commit/cancel (the token must map to the receipt of the reservation that completed). Oracle: sequential client model (D.3) for the result class, 'refused => no request and no connection', 'commit/cancel carry the receipt number the terminal issued for that token', and the hook snapshot of the client's map after every call. Non-trivial = history with at least one accepted call; distinct by hash of (history, max).")
     } else {
         format!("the C07 histories (exactly {depth} calls, max 1..3) and {n_walks} random walks, each run under a clean-up behaviour chosen per scenario: pending query reports {{no receipt field, FFFF, a dangling receipt}}, reversal of the dangling receipt {{completes, aborts}}, end-of-day {{completion, abort A0, every abort code 00..FF in turn, aborts (B8, A0, B4, ...) that also carry a receipt number}}, with intermediate/print packets inside the end-of-day exchange. Oracle (temporal checker over the request log per call): a commit/cancel the terminal completed that leaves no token open is followed by exactly PendingQuery -> PreAuthReversal(d) iff d reported -> EndOfDay(password); result Ok on completion/A0, error otherwise; with tokens remaining no PendingQuery/EndOfDay. Non-trivial = history containing at least one completed commit/cancel; distinct by hash of (history, max, clean-up behaviour).")
     };
@@ -677,6 +679,25 @@ pub fn run(ctx: &Ctx, id: &str) -> i32 {
                 let steps = vec![Step::Begin("a".into(), BeginOut::Success), Step::Begin("b".into(), out.clone()), Step::Commit("a".into(), 900, RevOut::Completed), Step::Begin("b".into(), BeginOut::Success), Step::Begin("c".into(), out), Step::Cancel("b".into(), RevOut::Completed)];
                 run_one(r, &mut rng, 2, steps, code as usize);
                 r.count("abort_code_sweep_histories", 1);
+            }
+        }
+        // tokens that are equal after trimming / case folding are different tokens: both stay open, each acts on its own receipt
+        for (ti, (t1, t2)) in [("cust-1", "cust-1 "), ("cust-1", " cust-1"), ("x", "X"), ("x", "x\t"), (" ", ""), ("ab", "a b")].iter().enumerate() {
+            if ti % threads != shard % threads {
+                continue;
+            }
+            for commit_first in [true, false] {
+                let (a, b) = (t1.to_string(), t2.to_string());
+                let steps = vec![
+                    Step::Begin(a.clone(), BeginOut::Success),
+                    Step::Begin(b.clone(), BeginOut::Success),
+                    if commit_first { Step::Commit(a.clone(), 500, RevOut::Completed) } else { Step::Cancel(b.clone(), RevOut::Completed) },
+                    Step::Begin(if commit_first { a.clone() } else { b.clone() }, BeginOut::Success),
+                    Step::Cancel(a.clone(), RevOut::Completed),
+                    Step::Commit(b.clone(), 700, RevOut::Completed),
+                ];
+                run_one(r, &mut rng, 2, steps, ti);
+                r.count("near_equal_token_histories", 1);
             }
         }
         // a card read before / between / after the transaction calls, its status information resembling a payment's
